@@ -220,6 +220,7 @@ func cmdRobust(args []string) int {
 	tier := fs.String("tier", "quick", "")
 	logf := fs.String("log", "", "")
 	maxcfg := fs.Int("cfg-per-input", 12, "configurations per input (rotating through the whole list)")
+	cfgFile := fs.String("configs", "", "configurations enumerated by TLC (spec/MC_Config.tla), one {\"t\":\"cfg\",\"names\":[..]} line each")
 	fs.Parse(args)
 	var r io.Reader = os.Stdin
 	if *in != "-" {
@@ -250,6 +251,34 @@ func cmdRobust(args []string) int {
 		defer lw.Flush()
 	}
 	cfgs := robustConfigs(*seed, *tier)
+	if *cfgFile != "" {
+		cfgs = []string{"default", "WhatWg", "WhatWgSortQuery", "GoogleSafeBrowsing", "Semantic"}
+		f, err := os.Open(*cfgFile)
+		if err != nil {
+			fmt.Fprintln(os.Stderr, err)
+			return 2
+		}
+		cs := bufio.NewScanner(f)
+		cs.Buffer(make([]byte, 1<<20), 1<<20)
+		for cs.Scan() {
+			raw := cs.Bytes()
+			if len(raw) == 0 || raw[0] != '"' {
+				continue
+			}
+			var inner string
+			var c struct {
+				T     string   `json:"t"`
+				Names []string `json:"names"`
+			}
+			if json.Unmarshal(raw, &inner) == nil && json.Unmarshal([]byte(inner), &c) == nil && c.T == "cfg" && len(c.Names) > 0 {
+				cfgs = append(cfgs, strings.Join(c.Names, "+"))
+			}
+		}
+		f.Close()
+		// deterministic shuffle so that a short rotation still mixes small and large configurations
+		rr := rand.New(rand.NewSource(*seed))
+		rr.Shuffle(len(cfgs), func(i, j int) { cfgs[i], cfgs[j] = cfgs[j], cfgs[i] })
+	}
 	n, ncalls, rot := 0, 0, 0
 	used := map[string]bool{}
 	sc := bufio.NewScanner(r)
